@@ -23,7 +23,7 @@ PROPS = {
     ),
     "C13B": dict(
         mc=[dict(tla="Bandtss_MC.tla", cfg="Bandtss_MC_fees.cfg", tier="quick", timeout=900)],
-        gen=dict(tla="Bandtss_Gen.tla", cfg="Bandtss_Gen_nogroup.cfg", depth=26, num=dict(quick=100, thorough=1500), timeout=900),
+        gen=dict(tla="Bandtss_Gen.tla", cfg="Bandtss_Gen_fees.cfg", depth=26, num=dict(quick=150, thorough=2500), timeout=900),
         drive=dict(family="bandtss", mode="fees", nrand=dict(quick=300, thorough=5000)),
         trace=dict(tla="Bandtss_Trace.tla", cfg="Bandtss_Trace_C13B.cfg"),
         rule="as C18 with mode 'fees' (more requests by paying users and by the authority, fee 0..3, limits 0..6, payer "
